@@ -340,3 +340,58 @@ HARNESSES.append(dual_harness(
      "skactiveml.stream._uncertainty_zliobaite:UncertaintyZliobaite._validate_data",
      "skactiveml.stream._stream_baselines:StreamRandomSampling._validate_data"],
     required_witnesses=("ran",)))
+
+
+# ---------------------------------------------------------------- a budget manager handed to the strategy
+_EXPLICIT = {
+    "FixedUncertainty": ("FixedUncertaintyBudgetManager", dict(classes=[0, 1])),
+    "VariableUncertainty": ("VariableUncertaintyBudgetManager", {}),
+    "RandomVariableUncertainty": ("RandomVariableUncertaintyBudgetManager", {}),
+    "Split": ("SplitBudgetManager", {}),
+}
+
+
+def sc_explicit_manager(d, name, n, w=2):
+    """a Zliobaite strategy that is handed its budget manager (strategy budget=None): the manager the strategy works with
+    is created once and its label accounting u_t = u_{t-1} (w-1)/w + [label granted] runs over the whole stream, whatever
+    the order of query / update calls - so the labeling-cost estimate the bound rests on is never reset"""
+    import skactiveml.stream as st
+    import skactiveml.stream.budgetmanager as bmod
+    from harness import density as dn
+    B = d.fl("budget", lo=0.0, hi=1.0)
+    if d.sym:
+        d.c.assume(core.s_lt(0, B))
+    elif B <= 0:
+        B = 0.03125
+    seed = d.integer("seed", 0, 2 ** 31 - 2)
+    mname, mkw = _EXPLICIT[name]
+    manager = getattr(bmod, mname)(budget=B, w=w, **mkw)
+    qs = getattr(st, name)(budget_manager=manager, random_state=seed, **mkw)
+    clf = dn._clf(d)
+    u = 0.0
+    first = None
+    for t in range(n):
+        ch = d.arr([[d.fl(f"x{t}", lo=-4.0, hi=4.0)]], shape=(1, 1))
+        idx = qs.query(ch.copy(), clf)
+        g = 1.0 if len(idx) else 0.0
+        qs.update(ch.copy(), d.arr([int(i) for i in idx], dtype=int))
+        bm = getattr(qs, "budget_manager_", None)
+        d.prove(bm is not None and bm is not manager, "strategy_works_on_its_own_copy_of_the_manager")
+        if bm is None:
+            return
+        if first is None:
+            first = bm
+        d.prove(bm is first, "budget_manager_created_once", info=dict(step=t))
+        u = u * (w - 1) / w + g
+        got = getattr(bm, "u_t_", None)
+        d.prove(got is not None and d.eq(got, u, 1e-12), "label_accounting_runs_over_the_whole_stream", info=dict(step=t, expected=u))
+        d.prove(d.eq(getattr(bm, "budget_", B), B), "budget_manager_carries_configured_budget")
+    d.witness(True, "ran")
+
+
+HARNESSES.append(dual_harness(
+    "strategy_with_explicit_manager", sc_explicit_manager,
+    lambda tier: [dict(name=nm, n=n) for nm in _EXPLICIT for n in ((2,) if tier == "quick" else (2, 3))],
+    ["skactiveml.utils._validation:check_budget_manager", "skactiveml.stream._uncertainty_zliobaite:UncertaintyZliobaite._validate_data",
+     "skactiveml.stream._uncertainty_zliobaite:UncertaintyZliobaite.query", "skactiveml.stream._uncertainty_zliobaite:UncertaintyZliobaite.update"],
+    required_witnesses=("ran",), product_abstraction=True))
